@@ -271,4 +271,59 @@ theorem groups_spec (n : Nat) (hn : SizeOK n) (bits : W) (hb : Sub bits (Gen.pre
       have := hsub i ((hi i).mpr (Conn.refl (lt_of_mask hn hb hai) hai))
       simp at this
 
+/-! ### termination for arbitrary constants -/
+
+/-- `FloodGroups` terminates within the model's fuel for **any** constants and any bits
+(each round clears the lowest set bit; each `Flood` call has `seed ⊆ within`). -/
+theorem floodGroupsFuel_isSome (c : Consts) (all : W) :
+    ∀ (fuel : Nat) (bits seen : W) (out : List W), cnt bits ≤ fuel →
+      (floodGroupsFuel c all fuel bits seen out).isSome = true := by
+  intro fuel
+  induction fuel with
+  | zero =>
+    intro bits seen out hc
+    have hb : bits = 0#64 := cnt_eq_zero (by omega)
+    subst hb; simp [floodGroupsFuel]
+  | succ f ih =>
+    intro bits seen out hc
+    unfold floodGroupsFuel
+    by_cases hb : bits = 0#64
+    · subst hb; simp
+    · have hb' : (bits == 0#64) = false := by simpa using hb
+      simp only [hb']
+      obtain ⟨k, hk64, hkb, hklow, hnext, hbit⟩ := exists_lowest bits hb
+      generalize hnx : bits &&& (bits - 1#64) = next at *
+      generalize hbt : bits &&& ~~~next = bit at *
+      have hnext_sub : Sub next bits := fun i hi => by
+        rw [hnext] at hi; simp only [Bool.and_eq_true] at hi; exact hi.1
+      have hnk : next.getLsbD k = false := by rw [hnext]; simp
+      have hcn : cnt next < cnt bits :=
+        cnt_lt hnext_sub (fun e => by rw [e] at hnk; rw [hnk] at hkb; cases hkb)
+      have hbit_sub : Sub bit bits := fun i hi => by
+        rw [hbit] at hi; simp only [decide_eq_true_eq] at hi; rw [hi]; exact hkb
+      by_cases hcond : (seen &&& bit == 0#64) = true
+      · simp only [hcond, if_true]
+        have hf := flood_isSome c bits bit hbit_sub
+        cases hfl : flood c bits bit with
+        | none => rw [hfl] at hf; cases hf
+        | some g => exact ih next _ _ (by omega)
+      · simp only [hcond]
+        exact ih next _ _ (by omega)
+
+theorem floodGroups_isSome (c : Consts) (bits : W) : (floodGroups c bits).isSome = true :=
+  floodGroupsFuel_isSome c bits 65 bits 0#64 [] (by have := cnt_le bits; omega)
+
+/-- `analyze()` never exhausts the model's fuel — for every position whatsoever -/
+theorem analyze_ne_none (p : Pos) : p.analyze ≠ none := by
+  unfold Pos.analyze
+  have h1 := floodGroups_isSome p.c (p.white &&& ~~~p.standing)
+  have h2 := floodGroups_isSome p.c (p.black &&& ~~~p.standing)
+  simp only
+  cases hw : floodGroups p.c (p.white &&& ~~~p.standing) with
+  | none => rw [hw] at h1; cases h1
+  | some wg =>
+    cases hb : floodGroups p.c (p.black &&& ~~~p.standing) with
+    | none => rw [hb] at h2; cases h2
+    | some bg => intro h; cases h
+
 end Roads
